@@ -440,3 +440,121 @@ func VH_C13_NestedIteration() {
 	}
 	vhReach("nested-iter-done")
 }
+
+// The same under MAP enumeration: a parent map whose values are, alternately,
+// scalars and nested arrays (key and value sizes symbolic, first-level digests
+// in ascending disjoint windows so the canonical order is known). During a
+// mutable enumeration (entries, values only, or the iterator object) the
+// callback grows one child or every child by an element of symbolic size: the
+// child may stop fitting inline and the parent's slab under the cursor may
+// split -- the enumeration still yields every key exactly once in digest
+// order (the next-key hand-off was computed before the element was handed
+// out), the parent is valid afterwards and shows the growth.
+//
+//vh:prop C13 C10
+//vh:param entries 4 5
+func VH_C13_NestedMapIteration() {
+	vhSetThreshold(256)
+	storage := vhNewBasicStorage()
+	addr := vhAddr(1)
+	b := &vDigesterBuilder{levels: 4}
+	parent, _ := NewMap(storage, addr, b, vTypeInfo{id: 42})
+	n := vhParam("entries", 4)
+	keys := make([]vKey, n)
+	isChild := make([]bool, n)
+	vids := make([]ValueID, n)
+	for i := 0; i < n; i++ {
+		k := vhNewKeyWin(uint64(i+1), uint64(i+1)*vhDigWin, uint64(i+1)*vhDigWin+1000, true)
+		vhAssume(k.size <= 60)
+		keys[i] = k
+		var val Value
+		if i%2 == 1 {
+			c, _ := NewArray(storage, addr, vTypeInfo{id: 42})
+			_ = c.Append(vElem{tag: 500, size: vhRange32("csz", 1, 60)})
+			isChild[i] = true
+			vids[i] = c.ValueID()
+			val = c
+		} else {
+			val = vElem{tag: uint64(10 + i), size: vhRange32("sz", 1, 100)}
+		}
+		_, err := parent.Set(vhCompare, vhHip, k, val)
+		vhAssert(err == nil, "setup: set")
+	}
+	slabsBefore := vhStorageSlabCount(storage)
+	mutateAt := vhChoose("mutateAt", n+1)
+	i := 0
+	visit := func(k Value, v Value) {
+		if i >= n {
+			i++
+			return
+		}
+		if k != nil {
+			kk, ok := k.(vKey)
+			vhAssert(ok && kk.id == keys[i].id, "keys in canonical order")
+		}
+		if isChild[i] {
+			c, ok := v.(*Array)
+			vhAssert(ok, "child yielded as an array")
+			if ok {
+				vhAssert(c.ValueID() == vids[i], "children in canonical order")
+				if i == mutateAt || mutateAt == n {
+					err := c.Append(vElem{tag: 600, size: vhRange32("grow", 1, 250)})
+					vhAssert(err == nil, "mutable enumeration: child mutation supported")
+				}
+			}
+		} else {
+			vhAssert(vhTagOf(v) == uint64(10+i), "scalars in canonical order")
+		}
+		i++
+	}
+	var err error
+	switch vhChoose("flavour", 3) {
+	case 0:
+		err = parent.Iterate(vhCompare, vhHip, func(k, v Value) (bool, error) { visit(k, v); return true, nil })
+	case 1:
+		err = parent.IterateValues(vhCompare, vhHip, func(v Value) (bool, error) { visit(nil, v); return true, nil })
+	case 2:
+		it, ierr := parent.Iterator(vhCompare, vhHip)
+		vhAssert(ierr == nil, "iterator")
+		if ierr != nil {
+			return
+		}
+		for {
+			k, v, nerr := it.Next()
+			if nerr != nil {
+				err = nerr
+				break
+			}
+			if k == nil {
+				break
+			}
+			visit(k, v)
+		}
+	}
+	vhAssert(err == nil, "enumeration: no error")
+	vhAssert(i == n, "every entry exactly once")
+	verr := VerifyMap(parent, addr, vTypeInfo{id: 42}, vhTic, vhHip, true)
+	vhAssert(verr == nil, "parent valid after growing children during enumeration")
+	for k := 0; k < n; k++ {
+		v, gerr := parent.Get(vhCompare, vhHip, keys[k])
+		vhAssert(gerr == nil, "get after enumeration")
+		if gerr != nil {
+			continue
+		}
+		if isChild[k] {
+			want := uint64(1)
+			if k == mutateAt || mutateAt == n {
+				want = 2
+			}
+			c, ok := v.(*Array)
+			vhAssert(ok && c.Count() == want, "child growth visible through the parent")
+		} else {
+			vhAssert(vhTagOf(v) == uint64(10+k), "scalar unchanged")
+		}
+	}
+	if vhStorageSlabCount(storage) > slabsBefore {
+		vhReach("witness: growth under the cursor added slabs (split or child became standalone)")
+	}
+	vhAssert(vhStorageSlabCount(storage) == vhMapSlabCount(storage, parent.SlabID()), "no leaked or dangling slabs")
+	vhReach("nested-map-iter-done")
+}
